@@ -22,21 +22,26 @@ RULE = ("hit histories of 2-10 hits with generated per-hit locals x conditions (
         "failing expression next to a good one; distinct = distinct (condition, watches, rows, outcome) keys")
 COMPONENTS = {"real": ["whole Deep agent"], "stub": ["threads/clock/executor", "gRPC channel + DEEP service"]}
 ASSUMPTIONS = ["only boolean-valued and failing conditions are generated (truthiness of other values not demanded)",
-               "the form of an error result is free: error_result set, or a result variable typed as the exception"]
+               "an error result is the error alternative of the watch result; its text is free"]
 TEXT = ("Seeded exploration of hit histories with per-hit truth values against a reference limiter where a rejected "
         "hit is free, plus scope probes comparing every watch with the recorder's evaluation in the frame's own scope.")
-NOTE = "Trusts the recorder's evaluation (eval with the frame's globals and a copy of its locals)."
+NOTE = "Trusts the recorder's evaluation (eval in one namespace: a copy of the frame's locals over its globals)."
 TECHNIQUE = "deterministic simulation: hit histories vs reference limiter, scope probes vs reference evaluation"
 
 CONDS_BOOL = ("flag", "not flag", "flag == True", "i % 2 == 0", "i > 2", "val > 1", "name == 'bob'", "G_HOST > 0",
               "G_HOST < 0", "len(name) == 99", "len(name) == 3", "person.age < 3", "data['k'] == 7", "i in G_LIST",
-              "True", "False", "  ", "")
+              "True", "False", "  ", "",
+              # nested scopes inside the expression see the frame's locals, as they would at that line
+              "any(v == i for v in data['l'])", "all(v > val for v in data['l'])", "(lambda: flag)()",
+              "len([v for v in data['l'] if v > i]) == 1", "sum(1 for c in name if c == 'b') == 2")
 CONDS_FAIL = ("nosuch_name", "1 / 0", "host_raise('true')", "host_raise('1')", "host_raise('yes')", "host_raise('y')",
               "host_raise('t')", "host_raise('True')", "host_raise_base('true')", "host_raise_base('boom')",
               "person.nope", "data['zz'] > 1", "time_ns() > 0", "LocationAction is not None", "deep is not None",
               "uuid is not None", "ConfigService is not None", "flag and nosuch_name", "host_raise('true') if i > 1 else False")
 WATCHES_OK = ("i", "val", "name", "person", "person.name", "person.greet()", "data", "data['l']", "G_HOST", "G_LIST",
-              "len(name)", "max(i, 3)", "str(val) + name", "[i, val]", "flag and i")
+              "len(name)", "max(i, 3)", "str(val) + name", "[i, val]", "flag and i",
+              "sum(v * i for v in data['l'])", "(lambda: name)()", "sorted(data['l'], key=lambda v: -v * i)",
+              "{n_: i for n_ in name[:2]}")
 WATCHES_BAD = ("nosuch", "1 / 0", "person.nope", "data['zz']", "time_ns", "LocationAction", "deep", "uuid",
                "FrameCollector", "host_raise('x')", "host_raise_base('b')", "TriggerContext", "str2bool")
 
@@ -148,8 +153,9 @@ def execute(s, ch):
             has_good = w_.HasField("good_result") and w_.good_result.ID in snap.var_lookup
             if st == "err":
                 n_bad += 1
-                looks_error = bool(w_.error_result) or (
-                    has_good and snap.var_lookup[w_.good_result.ID].type == type(val).__name__)
+                # "yields an error result": the error alternative of the watch result, not a value that happens to be
+                # an exception (which a local holding an exception also gives)
+                looks_error = bool(w_.error_result) and not has_good
                 if not looks_error:
                     got = snap.var_lookup[w_.good_result.ID] if has_good else None
                     viol.append(V("failing-expression-looks-successful", "%r fails in the frame's scope with %s(%s) but "
